@@ -107,7 +107,7 @@ func replay(in, out string) {
 			if st != nil {
 				if b, err := st.Marshal(); err == nil {
 					if sl, err := ParseSlim(b); err == nil {
-						t.Emit(ProtoEv(sl))
+						t.Emit(ProtoEv(sl, b))
 					}
 				}
 			}
